@@ -268,7 +268,14 @@ def redir_consts(x):
     body = fns["perform"][1]
     d = re.search(r"\.\s*dup\s*\(", body)
     if not d:
-        x.fail("anchor not found: `.dup(target_fd, <min>, <flags>)` in fn perform of yash-semantics/src/redir.rs")
+        # one level of helper: the saving dup may live in a private function `perform` calls
+        cands = {n for n in re.findall(r"\b([a-z_][a-z_0-9]*)\s*\(", body)
+                 if n in fns and n != "perform" and re.search(r"\.\s*dup\s*\(", fns[n][1])}
+        if len(cands) != 1:
+            x.fail("anchor not found: `.dup(<target>, <min>, <flags>)` in fn perform of yash-semantics/src/redir.rs "
+                   "nor in exactly one helper function it calls")
+        body = fns[cands.pop()][1]
+        d = re.search(r"\.\s*dup\s*\(", body)
     args, _ = call_args(body, d.end() - 1)
     if args is None or len(args) != 3:
         x.fail("fn perform: cannot read the arguments of `.dup(…)`")
